@@ -59,6 +59,12 @@ Theorem C05_all_classes_wf :
 Proof. split; vm_compute; reflexivity. Qed.
 Print Assumptions C05_all_classes_wf.
 
+(* wherever the schema documents the value an absent attribute / element stands for (default= or "The implied value
+   SHALL be ..."), the class declares exactly that value as implied_py_value - not as default_py_value, not at all *)
+Theorem C05_implied_values_match_schema : implied_mismatches = [].
+Proof. vm_compute; reflexivity. Qed.
+Print Assumptions C05_implied_values_match_schema.
+
 (* ... hence the round-trip theorem applies to the generated table restricted to the well-formed classes *)
 Theorem C05_generated_roundtrip : forall n cid fs tag, valid (filter wf_class all_classes) n (VStruct cid fs) ->
   exists t, enc (filter wf_class all_classes) n (VStruct cid fs) tag = Some t /\
